@@ -2,108 +2,341 @@
   C20 — Every failure surfaces as a catchable exception: no terminate, no leak.
 
   PROPERTY THEOREMS ONLY.
-  (1) scope-lifetime machine: if no destructor can throw, then for EVERY program and EVERY fault
-      schedule the outcome is never `terminate`, and a failing step surfaces as exactly its own
-      exception (the first one).
-  (2) regenerated from the source on every run (clang AST, transitive may-throw analysis): the list
-      of user-provided destructors and the calls in them that may throw. On the current tree
-      exactly two destructors are fallible — the two recorded findings; a new throwing call in any
-      destructor breaks `fallible_dtors_are_the_recorded_ones` by name.
+  (1) scope-lifetime machine (Fault/Model.lean): destructors whose work fails either defer the error to
+      `Finalize()` or let it escape. If no destructor lets an exception escape, then for EVERY program and
+      EVERY fault schedule — failing steps, failing destructor work, both, in any order, also a destructor
+      failing while another exception unwinds the stack — the outcome is never `terminate`
+      (`no_terminate`); a failing step surfaces as exactly its own exception (`error_surfaces`); and when no
+      step fails, the call completes normally ONLY IF no destructor's work failed either: a deferred error is
+      rethrown by `Finalize()`, never swallowed (`deferred_error_surfaces`), and an exception that reaches the
+      caller is one that was really raised (`exception_is_genuine`).
+  (2) regenerated from the source on every run (clang AST, transitive may-throw analysis that knows that
+      `try { … } catch (...) { }` confines what the try block throws): `dtors` = every user-provided destructor
+      with the calls through which an exception may LEAVE it, `dtorsDeferred` = the calls it guards. On the current
+      tree no destructor can let an exception escape (`dtors_cannot_let_exceptions_escape`, the hypothesis of (1));
+      exactly three destructors have fallible work and defer it (`deferring_dtors_are_the_three_scopes`). A new
+      throwing call in any destructor — or the removal of one of the try/catch blocks — breaks the first
+      theorem by name. Before fixes 149505c / d75a225 two destructors were fallible (the recorded classes
+      msgpack-object-dtor-throws, csv-write-dtor-throws); `throwing_dtor_terminates` keeps the reason why that
+      was fatal.
   Allocation failure, stream failure and truncation at every position are runtime enumerations
   (harness/ops_fault.cpp), labelled validation.
 -/
 import BSVerif.Fault.Model
 import BSVerif.Generated.InventoryConsts
+import BSVerif.Csv.Archive
 
 namespace BSVerif.Props.C20
 open BSVerif.Fault
 
-theorem unwind_false_of_all_false (stack : List Bool) (h : ∀ d ∈ stack, d = false) : unwind stack = false := by
-  induction stack with
-  | nil => rfl
-  | cons d rest ih =>
-    simp only [unwind]
-    rw [h d (by simp), ih (fun x hx => h x (by simp [hx]))]
-    rfl
+def stackOk (stack : List Dtor) : Prop := ∀ d ∈ stack, d.escapes = false
 
-/-- **No terminate**: with infallible destructors, whatever fails wherever, the process is never terminated. -/
-theorem no_terminate (prog : List Instr) (hp : noThrowingDtor prog) :
-    ∀ stack, (∀ d ∈ stack, d = false) → exec prog stack ≠ .terminate := by
+theorem unwind_some_of_ok (stack : List Dtor) (h : stackOk stack) : ∀ dfr, ∃ dfr', unwind stack dfr = some dfr' := by
+  induction stack with
+  | nil => intro dfr; exact ⟨dfr, rfl⟩
+  | cons d rest ih =>
+    intro dfr
+    have hr : stackOk rest := fun x hx => h x (by simp [hx])
+    cases d with
+    | clean => simp only [unwind]; exact ih hr dfr
+    | defers e => simp only [unwind]; exact ih hr _
+    | throws e => have := h (.throws e) (by simp); simp [Dtor.escapes] at this
+
+theorem stackOk_cons {d : Dtor} {stack : List Dtor} (hd : d.escapes = false) (hs : stackOk stack) : stackOk (d :: stack) := by
+  intro x hx; simp at hx; rcases hx with rfl | hx
+  · exact hd
+  · exact hs x hx
+
+theorem stackOk_tail {d : Dtor} {stack : List Dtor} (hs : stackOk (d :: stack)) : stackOk stack :=
+  fun x hx => hs x (by simp [hx])
+
+/-- **No terminate**: when no destructor lets an exception escape, then whatever fails wherever — steps, the
+    destructors' own work, during normal closes or during stack unwinding — the process is never terminated. -/
+theorem no_terminate (prog : List Instr) (hp : noEscapingDtor prog) :
+    ∀ stack dfr, stackOk stack → exec prog stack dfr ≠ .terminate := by
   induction prog with
   | nil =>
-    intro stack hs
-    simp [exec, unwind_false_of_all_false stack hs]
+    intro stack dfr hs
+    obtain ⟨d', hu⟩ := unwind_some_of_ok stack hs dfr
+    simp only [exec, hu]
+    cases dfr <;> simp
   | cons i is ih =>
-    intro stack hs
-    have hp' : noThrowingDtor is := fun d hd => hp d (by simp [hd])
+    intro stack dfr hs
+    have hp' : noEscapingDtor is := fun d hd => hp d (by simp [hd])
     cases i with
     | openScope d =>
-      have hd : d = false := hp d (by simp)
       simp only [exec]
-      exact ih hp' (d :: stack) (by intro x hx; simp at hx; rcases hx with rfl | hx; exact hd; exact hs x hx)
+      exact ih hp' (d :: stack) dfr (stackOk_cons (hp d (by simp)) hs)
     | step f =>
       cases f with
-      | none => simp only [exec]; exact ih hp' stack hs
-      | some e => simp [exec, unwind_false_of_all_false stack hs]
+      | none => simp only [exec]; exact ih hp' stack dfr hs
+      | some e =>
+        obtain ⟨d', hu⟩ := unwind_some_of_ok stack hs dfr
+        simp [exec, hu]
     | closeScope =>
       cases stack with
-      | nil => simp only [exec]; exact ih hp' [] (by simp)
+      | nil => simp only [exec]; exact ih hp' [] dfr (by intro x hx; simp at hx)
       | cons d rest =>
-        have hd : d = false := hs d (by simp)
-        subst hd
-        simp only [exec, Bool.false_eq_true, if_false]
-        exact ih hp' rest (fun x hx => hs x (by simp [hx]))
+        have hr := stackOk_tail hs
+        cases d with
+        | clean => simp only [exec]; exact ih hp' rest dfr hr
+        | defers e => simp only [exec]; exact ih hp' rest _ hr
+        | throws e => have := hs (.throws e) (by simp); simp [Dtor.escapes] at this
 
-/-- **The error surfaces**: with infallible destructors the outcome is the first failing step's own exception
-    (or normal completion when nothing fails). -/
-theorem error_surfaces (prog : List Instr) (hp : noThrowingDtor prog) :
-    ∀ stack, (∀ d ∈ stack, d = false) →
-    exec prog stack = (match firstFailure prog with | some e => .exception e | none => .completed) := by
+/-- **The error surfaces**: a failing step reaches the caller as exactly its own exception — the first one —
+    whatever the destructors that run during the unwinding do (their errors are deferred and dropped with the context). -/
+theorem error_surfaces (prog : List Instr) (hp : noEscapingDtor prog) (e : Nat) (hf : firstFailure prog = some e) :
+    ∀ stack dfr, stackOk stack → exec prog stack dfr = .exception e := by
   induction prog with
-  | nil => intro stack hs; simp [exec, firstFailure, unwind_false_of_all_false stack hs]
+  | nil => simp [firstFailure] at hf
   | cons i is ih =>
-    intro stack hs
-    have hp' : noThrowingDtor is := fun d hd => hp d (by simp [hd])
+    intro stack dfr hs
+    have hp' : noEscapingDtor is := fun d hd => hp d (by simp [hd])
     cases i with
     | openScope d =>
-      have hd : d = false := hp d (by simp)
-      simp only [exec, firstFailure]
-      exact ih hp' (d :: stack) (by intro x hx; simp at hx; rcases hx with rfl | hx; exact hd; exact hs x hx)
+      simp only [exec]
+      exact ih hp' (by simpa [firstFailure] using hf) (d :: stack) dfr (stackOk_cons (hp d (by simp)) hs)
     | step f =>
       cases f with
-      | none => simp only [exec, firstFailure]; exact ih hp' stack hs
-      | some e => simp [exec, firstFailure, unwind_false_of_all_false stack hs]
+      | none => simp only [exec]; exact ih hp' (by simpa [firstFailure] using hf) stack dfr hs
+      | some e' =>
+        obtain ⟨d', hu⟩ := unwind_some_of_ok stack hs dfr
+        have : e' = e := by simpa [firstFailure] using hf
+        simp [exec, hu, this]
+    | closeScope =>
+      have hf' : firstFailure is = some e := by simpa [firstFailure] using hf
+      cases stack with
+      | nil => simp only [exec]; exact ih hp' hf' [] dfr (by intro x hx; simp at hx)
+      | cons d rest =>
+        have hr := stackOk_tail hs
+        cases d with
+        | clean => simp only [exec]; exact ih hp' hf' rest dfr hr
+        | defers e'' => simp only [exec]; exact ih hp' hf' rest _ hr
+        | throws e'' => have := hs (.throws e'') (by simp); simp [Dtor.escapes] at this
+
+theorem deferError_ne_none (dfr : Option Nat) (e : Nat) : deferError dfr e ≠ none := by
+  cases dfr <;> simp [deferError]
+
+/-- once an error is deferred and no step fails, the call cannot complete normally -/
+theorem deferred_never_completes (prog : List Instr) (hf : firstFailure prog = none) :
+    ∀ stack dfr, dfr ≠ none → exec prog stack dfr ≠ .completed := by
+  induction prog with
+  | nil =>
+    intro stack dfr hd
+    simp only [exec]
+    cases dfr with
+    | none => exact absurd rfl hd
+    | some x => cases unwind stack (some x) <;> simp
+  | cons i is ih =>
+    intro stack dfr hd
+    cases i with
+    | openScope d => simp only [exec]; exact ih (by simpa [firstFailure] using hf) _ dfr hd
+    | step f =>
+      cases f with
+      | none => simp only [exec]; exact ih (by simpa [firstFailure] using hf) _ dfr hd
+      | some e => simp [firstFailure] at hf
+    | closeScope =>
+      have hf' : firstFailure is = none := by simpa [firstFailure] using hf
+      cases stack with
+      | nil => simp only [exec]; exact ih hf' _ dfr hd
+      | cons d rest =>
+        cases d with
+        | clean => simp only [exec]; exact ih hf' _ dfr hd
+        | defers e => simp only [exec]; exact ih hf' _ _ (deferError_ne_none dfr e)
+        | throws e => simp [exec]
+
+/-- **A deferred error surfaces too**: when no step fails, the call returns normally ONLY IF nothing at all failed —
+    no error was pending and the work of every destructor, of the scopes already open and of every scope the
+    program opens, succeeded. (Scopes with fallible destructors are closed before `Finalize()`: `endsClean`.) -/
+theorem deferred_error_surfaces (prog : List Instr) (hf : firstFailure prog = none) :
+    ∀ stack dfr, endsClean prog stack = true → exec prog stack dfr = .completed →
+      dfr = none ∧ (∀ d ∈ stack, d = .clean) ∧ (∀ d, Instr.openScope d ∈ prog → d = .clean) := by
+  induction prog with
+  | nil =>
+    intro stack dfr hc hex
+    simp only [endsClean, List.all_eq_true, beq_iff_eq] at hc
+    refine ⟨?_, hc, by simp⟩
+    cases dfr with
+    | none => rfl
+    | some x => exact absurd hex (deferred_never_completes [] rfl stack (some x) (by simp))
+  | cons i is ih =>
+    intro stack dfr hc hex
+    cases i with
+    | openScope d =>
+      simp only [exec] at hex
+      simp only [endsClean] at hc
+      obtain ⟨h1, h2, h3⟩ := ih (by simpa [firstFailure] using hf) (d :: stack) dfr hc hex
+      refine ⟨h1, fun x hx => h2 x (by simp [hx]), ?_⟩
+      intro x hx
+      simp only [List.mem_cons, Instr.openScope.injEq] at hx
+      rcases hx with rfl | hx
+      · exact h2 x (by simp)
+      · exact h3 x hx
+    | step f =>
+      cases f with
+      | none =>
+        simp only [exec] at hex
+        simp only [endsClean] at hc
+        obtain ⟨h1, h2, h3⟩ := ih (by simpa [firstFailure] using hf) stack dfr hc hex
+        exact ⟨h1, h2, fun x hx => h3 x (by simpa using hx)⟩
+      | some e => simp [firstFailure] at hf
+    | closeScope =>
+      have hf' : firstFailure is = none := by simpa [firstFailure] using hf
+      simp only [endsClean] at hc
+      cases stack with
+      | nil =>
+        simp only [exec] at hex
+        obtain ⟨h1, _, h3⟩ := ih hf' [] dfr hc hex
+        exact ⟨h1, by simp, fun x hx => h3 x (by simpa using hx)⟩
+      | cons d rest =>
+        simp only [List.tail_cons] at hc
+        cases d with
+        | clean =>
+          simp only [exec] at hex
+          obtain ⟨h1, h2, h3⟩ := ih hf' rest dfr hc hex
+          refine ⟨h1, ?_, fun x hx => h3 x (by simpa using hx)⟩
+          intro x hx; simp at hx; rcases hx with rfl | hx
+          · rfl
+          · exact h2 x hx
+        | defers e =>
+          simp only [exec] at hex
+          exact absurd hex (deferred_never_completes is hf' rest _ (deferError_ne_none dfr e))
+        | throws e => simp [exec] at hex
+
+theorem unwind_mem (stack : List Dtor) : ∀ dfr dfr' x, unwind stack dfr = some dfr' → dfr' = some x →
+    dfr = some x ∨ Dtor.defers x ∈ stack := by
+  induction stack with
+  | nil => intro dfr dfr' x h hx; simp only [unwind, Option.some.injEq] at h; left; rw [h, hx]
+  | cons d rest ih =>
+    intro dfr dfr' x h hx
+    cases d with
+    | clean => simp only [unwind] at h; rcases ih dfr dfr' x h hx with h' | h'; exact Or.inl h'; exact Or.inr (by simp [h'])
+    | defers e =>
+      simp only [unwind] at h
+      rcases ih _ dfr' x h hx with h' | h'
+      · cases dfr with
+        | none => simp only [deferError, Option.some.injEq] at h'; right; simp [h']
+        | some y => simp only [deferError] at h'; left; exact h'
+      · exact Or.inr (by simp [h'])
+    | throws e => simp [unwind] at h
+
+/-- **Nothing is invented**: an exception that reaches the caller was raised by a step of the program, by the work of
+    one of its destructors, or was already pending. -/
+theorem exception_is_genuine (prog : List Instr) :
+    ∀ stack dfr e, exec prog stack dfr = .exception e →
+      dfr = some e ∨ Instr.step (some e) ∈ prog ∨ Instr.openScope (.defers e) ∈ prog ∨ Dtor.defers e ∈ stack := by
+  induction prog with
+  | nil =>
+    intro stack dfr e h
+    simp only [exec] at h
+    cases hu : unwind stack dfr with
+    | none => simp [hu] at h
+    | some d' =>
+      cases dfr with
+      | none => simp [hu] at h
+      | some x => simp [hu] at h; left; rw [h]
+  | cons i is ih =>
+    intro stack dfr e h
+    cases i with
+    | openScope d =>
+      simp only [exec] at h
+      rcases ih (d :: stack) dfr e h with h' | h' | h' | h'
+      · exact Or.inl h'
+      · exact Or.inr (Or.inl (by simp [h']))
+      · exact Or.inr (Or.inr (Or.inl (by simp [h'])))
+      · simp only [List.mem_cons] at h'
+        rcases h' with rfl | h'
+        · exact Or.inr (Or.inr (Or.inl (by simp)))
+        · exact Or.inr (Or.inr (Or.inr h'))
+    | step f =>
+      cases f with
+      | none =>
+        simp only [exec] at h
+        rcases ih stack dfr e h with h' | h' | h' | h'
+        · exact Or.inl h'
+        · exact Or.inr (Or.inl (by simp [h']))
+        · exact Or.inr (Or.inr (Or.inl (by simp [h'])))
+        · exact Or.inr (Or.inr (Or.inr h'))
+      | some e' =>
+        simp only [exec] at h
+        cases hu : unwind stack dfr with
+        | none => simp [hu] at h
+        | some d' => simp [hu] at h; exact Or.inr (Or.inl (by simp [h]))
     | closeScope =>
       cases stack with
-      | nil => simp only [exec, firstFailure]; exact ih hp' [] (by simp)
+      | nil =>
+        simp only [exec] at h
+        rcases ih [] dfr e h with h' | h' | h' | h'
+        · exact Or.inl h'
+        · exact Or.inr (Or.inl (by simp [h']))
+        · exact Or.inr (Or.inr (Or.inl (by simp [h'])))
+        · simp at h'
       | cons d rest =>
-        have hd : d = false := hs d (by simp)
-        subst hd
-        simp only [exec, firstFailure, Bool.false_eq_true, if_false]
-        exact ih hp' rest (fun x hx => hs x (by simp [hx]))
+        cases d with
+        | clean =>
+          simp only [exec] at h
+          rcases ih rest dfr e h with h' | h' | h' | h'
+          · exact Or.inl h'
+          · exact Or.inr (Or.inl (by simp [h']))
+          · exact Or.inr (Or.inr (Or.inl (by simp [h'])))
+          · exact Or.inr (Or.inr (Or.inr (by simp [h'])))
+        | defers e' =>
+          simp only [exec] at h
+          rcases ih rest _ e h with h' | h' | h' | h'
+          · cases dfr with
+            | none => simp only [deferError, Option.some.injEq] at h'; exact Or.inr (Or.inr (Or.inr (by simp [h'])))
+            | some y => simp only [deferError] at h'; exact Or.inl h'
+          · exact Or.inr (Or.inl (by simp [h']))
+          · exact Or.inr (Or.inr (Or.inl (by simp [h'])))
+          · exact Or.inr (Or.inr (Or.inr (by simp [h'])))
+        | throws e' => simp [exec] at h
 
-/-- the hypothesis is necessary: one throwing destructor and one failing step give `terminate` -/
-theorem throwing_dtor_terminates : exec [.openScope true, .step (some 7)] [] = .terminate := by decide
+/-- the hypothesis is necessary — why an exception leaving a destructor is fatal: a scope whose destructor lets its
+    error escape ends in `terminate` when it is closed normally (`std::optional<T>::~optional()` is noexcept) and when it
+    is destroyed while another exception unwinds the stack (the two repaired findings); the same faults with a
+    deferring destructor give the caller an exception -/
+theorem throwing_dtor_terminates :
+    exec [.openScope (.throws 1), .step (some 7)] [] none = .terminate ∧
+    exec [.openScope (.throws 1), .closeScope] [] none = .terminate ∧
+    exec [.openScope (.defers 1), .step (some 7)] [] none = .exception 7 ∧
+    exec [.openScope (.defers 1), .closeScope] [] none = .exception 1 := by decide
 
-/-! #### regenerated obligation over the destructor inventory -/
+/-- only the FIRST deferred error is kept (the later ones are consequences of the first) -/
+theorem first_deferred_error_is_kept :
+    exec [.openScope (.defers 1), .openScope (.defers 2), .closeScope, .step none, .closeScope] [.clean] none = .exception 2 ∧
+    exec [.openScope (.defers 1), .closeScope, .openScope (.defers 2), .closeScope] [.clean] none = .exception 1 := by decide
+
+/-! #### regenerated obligations over the destructor inventory -/
 open BSVerif.Generated.Inventory
 
-/-- Exactly the two recorded destructors can throw (CSV row flush, MsgPack unread-member skip); every
-    other user-provided destructor of the library is infallible. -/
-theorem fallible_dtors_are_the_recorded_ones :
-    (dtors.filter (fun d => !d.2.isEmpty)).map (·.1) =
-      ["BitSerializer::Csv::Detail::CCsvWriteObjectScope::~CCsvWriteObjectScope",
-       "BitSerializer::MsgPack::Detail::CMsgPackReadObjectScope::~CMsgPackReadObjectScope"] := by
+/-- **No destructor of the library can let an exception escape**: in every user-provided destructor, every call that
+    may throw (transitively) sits inside a `try` with a catch-all handler that does not rethrow. This discharges the
+    hypothesis `noEscapingDtor` of the theorems above for the real code; a throwing call added to any destructor, or
+    a removed try/catch, makes this theorem false by name. (Formerly `fallible_dtors_are_the_recorded_ones`, which
+    listed the two destructors of the recorded findings.) -/
+theorem dtors_cannot_let_exceptions_escape : dtors.all (fun d => d.2.isEmpty) = true := by
   decide
 
-/-- the scope base-class destructor (parent notification) and the four root-scope destructors (owning
-    `delete` of the reader/writer) are infallible -/
-theorem root_and_base_dtors_infallible :
-    (dtors.filter (fun d => d.2.isEmpty)).map (·.1) =
-      ["BitSerializer::Csv::Detail::CsvReadRootScope::~CsvReadRootScope",
+/-- the destructors that have fallible work and defer its error to `Finalize()`: the CSV row flush, the MsgPack
+    unread-member skip and the MsgPack unread-element skip — the `Dtor.defers` scopes of the machine -/
+theorem deferring_dtors_are_the_three_scopes :
+    dtorsDeferred.filter (fun d => !d.2.isEmpty) =
+      [("BitSerializer::Csv::Detail::CCsvWriteObjectScope::~CCsvWriteObjectScope", ["NextLine"]),
+       ("BitSerializer::MsgPack::Detail::CMsgPackReadArrayScope::~CMsgPackReadArrayScope", ["SkipValue"]),
+       ("BitSerializer::MsgPack::Detail::CMsgPackReadObjectScope::~CMsgPackReadObjectScope", ["ResetKey", "SkipValue"])] := by
+  decide
+
+/-- the user-provided destructors of the library: the three scopes above, the scope base class (parent notification),
+    the four root scopes (owning `delete` of the reader/writer) and the interface/base destructors -/
+theorem dtor_inventory :
+    dtors.map (·.1) =
+      ["BitSerializer::Csv::Detail::CCsvWriteObjectScope::~CCsvWriteObjectScope",
+       "BitSerializer::Csv::Detail::CsvReadRootScope::~CsvReadRootScope",
        "BitSerializer::Csv::Detail::CsvWriteRootScope::~CsvWriteRootScope",
        "BitSerializer::Csv::Detail::ICsvReader::~ICsvReader",
        "BitSerializer::Csv::Detail::ICsvWriter::~ICsvWriter",
+       "BitSerializer::MsgPack::Detail::CMsgPackReadArrayScope::~CMsgPackReadArrayScope",
+       "BitSerializer::MsgPack::Detail::CMsgPackReadObjectScope::~CMsgPackReadObjectScope",
        "BitSerializer::MsgPack::Detail::CMsgPackScopeBase::~CMsgPackScopeBase",
        "BitSerializer::MsgPack::Detail::CVariableKey::~CVariableKey",
        "BitSerializer::MsgPack::Detail::IMsgPackReader::~IMsgPackReader",
@@ -112,7 +345,117 @@ theorem root_and_base_dtors_infallible :
        "BitSerializer::MsgPack::Detail::MsgPackWriteRootScope::~MsgPackWriteRootScope"] := by
   decide
 
-example : noThrowingDtor [.openScope false, .step none, .openScope false, .step (some 3), .closeScope, .closeScope] := by
-  intro d hd; simp at hd; exact hd
+/-! #### the CSV save session with the deferred row error = the session that stops at the first row error
+
+The CSV theorems (C09) are stated for `Archive.saveString/saveStream`, which end at the first `NextLine` error. The
+repaired code goes on (the destructor defers the error, the remaining rows are written, `Finalize()` rethrows the first
+error). Both give the caller the same text or the same exception, for every table. -/
+section Csv
+open BSVerif.Csv BSVerif.Csv.Archive BSVerif.Csv.Writer
+
+theorem stringRows_deferred_some (rows : List (List KV)) : ∀ (w : StringWriter) (e : Err),
+    (stringRowsDeferred w (some e) rows).2 = some e := by
+  induction rows with
+  | nil => intro w e; rfl
+  | cons r rs ih =>
+    intro w e
+    simp only [stringRowsDeferred]
+    split
+    · exact ih _ e
+    · exact ih _ e
+
+theorem streamRows_deferred_some (rows : List (List KV)) : ∀ (w : StreamWriter) (e : Err),
+    (streamRowsDeferred w (some e) rows).2 = some e := by
+  induction rows with
+  | nil => intro w e; rfl
+  | cons r rs ih =>
+    intro w e
+    simp only [streamRowsDeferred]
+    split
+    · exact ih _ e
+    · exact ih _ e
+
+theorem stringRows_deferred_eq (rows : List (List KV)) : ∀ (w : StringWriter),
+    match w.writeRows rows with
+    | .ok w' => stringRowsDeferred w none rows = (w', none)
+    | .error e => (stringRowsDeferred w none rows).2 = some e := by
+  induction rows with
+  | nil => intro w; rfl
+  | cons r rs ih =>
+    intro w
+    simp only [StringWriter.writeRows, StringWriter.writeRow, stringRowsDeferred]
+    cases h : (List.foldl (fun w kv => w.writeValue kv.1 kv.2) w r).nextLine with
+    | ok w2 => exact ih w2
+    | error e => exact stringRows_deferred_some rs _ e
+
+theorem streamRows_deferred_eq (rows : List (List KV)) : ∀ (w : StreamWriter),
+    match w.writeRows rows with
+    | .ok w' => streamRowsDeferred w none rows = (w', none)
+    | .error e => (streamRowsDeferred w none rows).2 = some e := by
+  induction rows with
+  | nil => intro w; rfl
+  | cons r rs ih =>
+    intro w
+    simp only [StreamWriter.writeRows, StreamWriter.writeRow, streamRowsDeferred]
+    cases h : (List.foldl (fun w kv => w.writeValue kv.1 kv.2) w r).nextLine with
+    | ok w2 => exact ih w2
+    | error e => exact streamRows_deferred_some rs _ e
+
+/-- **A ragged CSV table still ends in its SerializationException** (and every other table in exactly the same text):
+    deferring the row error from the destructor to `Finalize()` changes nothing the caller can observe, for every
+    separator and every list of objects. -/
+theorem csv_deferred_save_eq (sep : Nat) (objs : List (List KV)) :
+    saveStringDeferred sep objs = Archive.saveString sep objs ∧ saveStreamDeferred sep objs = Archive.saveStream sep objs := by
+  constructor
+  · simp only [saveStringDeferred, Archive.saveString, Writer.saveString, bind, Except.bind]
+    cases validateSeparator sep with
+    | error e => rfl
+    | ok u =>
+      simp only
+      have := stringRows_deferred_eq objs (StringWriter.mk [] true sep [] 0 0 0)
+      cases h : (StringWriter.mk [] true sep [] 0 0 0).writeRows objs with
+      | ok w' => rw [h] at this; simp only [this]
+      | error e =>
+        rw [h] at this
+        simp only at this
+        generalize stringRowsDeferred _ none objs = res at this
+        obtain ⟨w, d⟩ := res
+        simp only at this
+        subst this
+        rfl
+  · simp only [saveStreamDeferred, Archive.saveStream, Writer.saveStream, bind, Except.bind]
+    cases validateSeparator sep with
+    | error e => rfl
+    | ok u =>
+      simp only
+      have := streamRows_deferred_eq objs (StreamWriter.mk [] true sep [] [] 0 0 0)
+      cases h : (StreamWriter.mk [] true sep [] [] 0 0 0).writeRows objs with
+      | ok w' => rw [h] at this; simp only [this]
+      | error e =>
+        rw [h] at this
+        simp only at this
+        generalize streamRowsDeferred _ none objs = res at this
+        obtain ⟨w, d⟩ := res
+        simp only at this
+        subst this
+        rfl
+
+-- the ragged table of the former finding (`fault.midsave csv_ragged_*`: rows {x=2}, {x=3, extra=1}): rejected, not terminated
+example : saveStringDeferred 44 [[([120], [50])], [([120], [51]), ([101], [49])]] = .error .serOutOfRange := by rfl
+
+end Csv
+
+/-! #### non-vacuity -/
+
+-- a session in which a destructor's work fails during a normal close AND a step fails later: hypotheses hold
+example : noEscapingDtor [.openScope .clean, .step none, .openScope (.defers 4), .closeScope, .step (some 3), .closeScope] ∧
+    firstFailure [.openScope .clean, .step none, .openScope (.defers 4), .closeScope, .step (some 3), .closeScope] = some 3 := by
+  refine ⟨?_, rfl⟩
+  intro d hd; simp at hd; rcases hd with rfl | rfl <;> rfl
+
+-- a session without failing step whose scopes are all closed before Finalize()
+example : firstFailure [.openScope (.defers 4), .step none, .closeScope] = none ∧
+    endsClean [.openScope (.defers 4), .step none, .closeScope] [.clean] = true ∧
+    exec [.openScope (.defers 4), .step none, .closeScope] [.clean] none = .exception 4 := by decide
 
 end BSVerif.Props.C20
